@@ -219,7 +219,7 @@ def sweep_factory(tier, seed):
     base = _mk_base_tasks()
     reqs = []
     for name in (None, 'named'):
-        for extra in (['-a'], ['-b']):
+        for extra in (['-a'], ['-b'], ['{v}'], ['{print $1}']):      # extra arguments are appended as they are, braces included
             for fmt in ({}, {'v': '1'}, {'v': '2'}):
                 for deps in ([], [0], [1]):
                     for soft in ([], [1]):
@@ -274,13 +274,18 @@ def sweep_factory(tier, seed):
             fails.append({'input': inp, 'observed': f'two different requests silently share the task {t1.name!r}', 'expected': 'distinct tasks or an explicit error'})
             continue
         for t, r in ((t1, r1), (t2, r2)):
-            if describe(t) != wanted(r):
+            try:
+                desc = describe(t)
+            except Exception as e:      # noqa
+                fails.append({'input': inp, 'observed': f'building the command line of task {t.name!r} raised {e!r}', 'expected': repr(wanted(r))})
+                break
+            if desc != wanted(r):
                 fails.append({'input': inp, 'observed': f'task {t.name!r} runs {describe(t)}', 'expected': repr(wanted(r))})
                 break
         if len(fails) >= 8:
             break
     return {'name': 'factory-requests-native', 'evaluations': n, 'distinct': n, 'failures': fails[:8], 'exhaustive': tier != 'quick',
-            'bound': f'pairs of RunTaskFactory.make requests: name in {{None, named}} x 2 extra-argument lists x 3 format kwargs x 3 dependency lists x 2 soft-dependency '
+            'bound': f'pairs of RunTaskFactory.make requests: name in {{None, named}} x 4 extra-argument lists (two with braces) x 3 format kwargs x 3 dependency lists x 2 soft-dependency '
                      f'lists x 2 subprocess-argument dicts ({len(reqs)} requests); every identical pair, {"1500 sampled" if tier == "quick" else "all"} different pairs',
             'samples': [{'requests': ["(None, ['-a'], {}, [], [], {})", "(None, ['-a'], {}, [0], [], {})"]}]}
 
